@@ -10,7 +10,7 @@ import framework as fw, macroh
 
 ASSUMPTIONS = fw.COMMON_ASSUMPTIONS + [
     'MacroDetector::MacroDetector and MacroDetector::detect are replaced by contract stubs: detect terminates and returns nullopt or a match inside the input before T_EOF (termination and range of the real detector: C12/C13)',
-    'the budget is a constant of each job (0, 1, 2, 3); a symbolic budget was not decided by CBMC within 20 minutes; the loop body does not depend on the budget other than through the comparison pass < passes',
+    'the budget is a constant of each job (0, 1, 2, 3, and 2^31, 2^32-1 with a macro set that is finished after one step); a symbolic budget was not decided by CBMC within 20 minutes; the loop body does not depend on the budget other than through the comparison pass < passes',
     'number of definitions, priorities and rejections are constants of each job; bodies, inputs and detector answers are symbolic',
     'tail of Theo::parse: checked syntactically on the LLVM IR (operand 1024 of the only call of apply_macros inside Theo::parse) and on the source text (mar.errors is part of the lists copied into a.errors before parsed_correctly is set); Theo::parse itself is not executed symbolically',
 ]
@@ -23,6 +23,9 @@ def run(prop, tier, seed, wd, t0):
     jobs = [macroh.select_job('loop.budget0', (5, 5), passes=0, tags=tags),
             macroh.select_job('loop.budget1', (3, 7), passes=1, tags=tags),
             macroh.select_job('loop.budget1_adversarial', (5, 5), passes=1, adversarial=True, tags=tags)]
+    # budgets at the other end of `unsigned`: the expansion needs one rewriting step, the budget is 2^31 / 2^32-1 ("all pass budgets from 1 upward")
+    jobs.append(macroh.select_job('loop.budget_2p31_1def', (5,), passes=1, nin=2, tags=tags, pfix=2**31, quiet_after=1))
+    jobs.append(macroh.select_job('loop.budget_uintmax_1def', (5,), passes=1, nin=2, tags=tags, pfix=2**32 - 1, quiet_after=1))
     if tier == 'quick':
         jobs.append(macroh.select_job('loop.budget2_1def', (5,), passes=2, nin=1, tags=tags))
         jobs.append(macroh.select_job('loop.budget2_adversarial_1def', (5,), passes=2, nin=2, adversarial=True, tags=tags))
